@@ -125,6 +125,9 @@ BaseCase == {[files |-> SetToSeq({FileRec(m, Cat(GoodFiles[m]), "") : m \in DOMA
 RECURSIVE Lines(_)
 Lines(ls) == IF ls = <<>> THEN "" ELSE ls[1] \o (IF Len(ls) = 1 THEN "" ELSE "\n" \o Lines(Tail(ls)))
 Pad(n) == [i \in 1..n |-> IF i % 2 = 0 THEN "{{-- c" \o ToString(i) \o " --}}" ELSE "text " \o ToString(i)]
+\* the same number of lines that are blank or hold white space only: nothing a loader may trim
+Blank(n) == [i \in 1..n |-> IF i % 2 = 1 THEN "" ELSE "  \t"]
+PadOr(n, blank) == IF blank THEN Blank(n) ELSE Pad(n)
 LayLines(n, fault) == Pad(n) \o <<fault>> \o <<"<h>@reserve(\"title\")</h>", "@reserve(\"content\")">>
 PageLines(n, fault) == <<"@use(\"~main\")">> \o Pad(n) \o <<"@insert(\"title\", \"T\")", "@insert(\"content\")", "body", fault, "@end">>
 CompLines(n, fault) == Pad(n) \o <<fault, "[{{ n }}]">>
@@ -157,6 +160,28 @@ TreeFaults ==
 \cup {PathCase(<<FileRec("home", Lines(Pad(n) \o <<"@component(\"~ghost\")">>), "")>>,
                [ok |-> FALSE, mentions |-> <<"home", "components/ghost">>, file |-> "home", line |-> n + 1], <<>>, "unknown-component") : n \in 0..3}
 
+\* files that BEGIN with blank lines, and run-time faults inside a component file (the line is the line in that file; which
+\* path is reported for it is not fixed by C13)
+BlankFaults ==
+     {PathCase(<<FileRec("components/c", Lines(Blank(n) \o <<f, "[{{ n }}]">>), ""), FileRec(pg, "x\n@component(\"~c\", {n: 1})", "")>>,
+               [ok |-> FALSE, mentions |-> <<"components/c">>, file |-> "components/c", line |-> n + 1], <<>>, "component-parse") :
+        n \in 1..3, f \in ParseFaults, pg \in {"about", "zebra"}}
+\cup {PathCase(<<FileRec("layouts/main", Lines(Blank(n) \o <<f>> \o GoodLay), ""), FileRec("home", Lines(PageLines(1, "ok")), "")>>,
+               [ok |-> FALSE, mentions |-> <<"layouts/main">>, file |-> "layouts/main", line |-> n + 1], <<>>, "layout-parse") : n \in 1..3, f \in ParseFaults}
+\cup {PathCase(<<FileRec("home", Lines(Blank(n) \o <<f>>), "")>>,
+               [ok |-> FALSE, mentions |-> <<"home">>, file |-> "home", line |-> n + 1], <<>>, "page-parse") : n \in 1..3, f \in ParseFaults}
+\cup {PathCase(<<FileRec("home", Lines(Blank(n) \o <<f>>), "")>>, [ok |-> TRUE, names |-> <<"home">>],
+               <<[op |-> "String", name |-> "home", data |-> <<>>, expect |-> [kind |-> "err", why |-> "fault", line |-> n + 1], path |-> "home"]>>, "page-runtime") :
+        n \in 1..3, f \in RunFaults}
+\cup {PathCase(<<FileRec("components/c", Lines(PadOr(n, bl) \o <<f, "[{{ n }}]">>), ""), FileRec(pg, "x\n@component(\"~c\", {n: 1})", "")>>,
+               [ok |-> TRUE, names |-> <<"components/c", pg>>],
+               <<[op |-> "String", name |-> pg, data |-> <<>>, expect |-> [kind |-> "err", why |-> "fault", line |-> n + 1], path |-> ""]>>, "component-runtime") :
+        n \in 0..3, bl \in BOOLEAN, f \in RunFaults, pg \in {"about", "zebra"}}
+\cup {PathCase(<<FileRec("layouts/main", Lines(PadOr(n, bl) \o <<"<h>@reserve(\"title\")</h>", f, "@reserve(\"content\")">>), ""), FileRec("home", Lines(PageLines(1, "ok")), "")>>,
+               [ok |-> TRUE, names |-> <<"home">>],
+               <<[op |-> "String", name |-> "home", data |-> <<>>, expect |-> [kind |-> "err", why |-> "fault", line |-> n + 2], path |-> ""]>>, "layout-runtime") :
+        n \in 0..3, bl \in BOOLEAN, f \in RunFaults}
+
 \* faults in the page itself around a component: in a slot body the page passes, in an argument, after the component
 CardLines == <<"<c>@slot</c>|@slot(\"foot\")">>
 RunCase(home, line, tag) == PathCase(<<FileRec("components/card", Lines(CardLines), ""), FileRec("components/c", Lines(GoodComp), ""), FileRec("home", Lines(home), "")>>,
@@ -182,7 +207,7 @@ CycleTrees == {PathCase(<<FileRec("components/self", "s@if(false)@component(\"~s
                         [any |-> TRUE, mentions |-> <<"components/a", "components/b", "home">>], <<>>, "component-cycle"),
                PathCase(<<FileRec("layouts/l", "@use(\"~l\")@reserve(\"x\")", ""), FileRec("home", "@use(\"~l\")@insert(\"x\", 1)", "")>>,
                         [any |-> TRUE, mentions |-> <<"layouts/l", "home">>], <<>>, "layout-cycle")}
-Cases == CASE Family = "c13tree" -> TreeFaults \cup CompFaults \cup CycleTrees
+Cases == CASE Family = "c13tree" -> TreeFaults \cup BlankFaults \cup CompFaults \cup CycleTrees
            [] Family = "c18names" -> NameCases(Singles, Spellings, Exts)
            [] Family = "c18namesall" -> NameCases(Singles \cup Pairs, Spellings, Exts)
            [] Family = "c18faults" -> AfterHealthy(FaultCases \cup TruncCases) \cup FaultCases \cup TruncCases \cup BaseCase
